@@ -1,9 +1,10 @@
 """C19  Safety analysis is total on every pickle that decompiles."""
 import io
 import json
+import os
 import traceback
 
-from vlib import asm, cells, diff, vocab
+from vlib import asm, cells, diff, env, vocab
 from vlib.runner import Failure, ShardResult, hypothesis_search
 
 ID = "C19"
@@ -101,6 +102,30 @@ def judge(data, loader_check=False):
         )
     if back != _listify(td):
         return Failure(case, f"report for {data!r} does not survive a JSON round trip"), "bad-json"
+    # asking the summary whether it is clean does not change the report it gives afterwards
+    try:
+        bool(res), (not res)
+        td_after = res.to_dict()
+    except Exception as e:  # noqa: BLE001
+        return Failure(case, f"truth-testing the summary for {data!r} then to_dict() fails: {e!r}"), "bad-json"
+    if _listify(td_after) != _listify(td):
+        return (
+            Failure(case, f"the report for {data!r} changes once the summary has been truth-tested: "
+                          f"{_short(td)} then {_short(td_after)}"),
+            "bad-json",
+        )
+    # the report written to a file by the library itself
+    rp = os.path.join(env.SCRATCH, f"c19-{os.getpid()}.json")
+    try:
+        os.makedirs(env.SCRATCH, exist_ok=True)
+        check_safety(Pickled.load(data), json_output_path=rp)
+        with open(rp, encoding="utf-8", errors="surrogatepass") as fh:
+            fh.read()
+    except Exception as e:  # noqa: BLE001
+        return Failure(case, f"check_safety(json_output_path=...) for {data!r} fails: {type(e).__name__}: {e}"), "bad-json"
+    finally:
+        if os.path.exists(rp):
+            os.remove(rp)
     # the report at every verbosity the API accepts, not only the default one
     for v in Severity:
         try:
@@ -290,6 +315,17 @@ def run_shard(spec, seed):
                         return res
         res.exhaustive = True
     elif spec["kind"] == "many":
+        # global names that are legal text but awkward to write down: unpaired surrogates (the
+        # pickler encodes them with surrogatepass), non-BMP, right-to-left, NUL
+        for mod, name in (("os", "\ud800x"), ("m\udfff", "f"), ("os", "\U0001d11e"), ("\u202eso", "metsys"), ("o\x00s", "f")):
+            for tail in (b".", b")R."):
+                data = (b"\x80\x04" + b"\x8c" + bytes([len(mod.encode("utf-8", "surrogatepass"))]) + mod.encode("utf-8", "surrogatepass")
+                        + b"\x8c" + bytes([len(name.encode("utf-8", "surrogatepass"))]) + name.encode("utf-8", "surrogatepass") + b"\x93" + tail)  # fmt: skip
+                f, klass = judge(data)
+                res.note(data, klass != "refused", klass=[klass, "awkward-name"], sample={"hex": data.hex()})
+                if f is not None:
+                    res.failures.append(f)
+                    return res
         for n in (1, 2, 5, 8, 12, 16, 24, 32):
             for call in (False, True):
                 data = many_findings(n, call)
